@@ -9,6 +9,7 @@ import (
 	"math/rand/v2"
 	"os"
 	"slices"
+	"strings"
 	"sync"
 	"time"
 
@@ -129,6 +130,7 @@ type c08 struct {
 	prevIDs    []types.FileContractID       // contracts renewed away from
 	prev       []rhp.ContractRevision       // ... with their last revision
 	active     *rhp.ContractRevision        // the current contract while an old one is selected
+	stale      string                       // the host's current prices differ by this factor from the signed table in use
 	afterFault string                       // the running step follows a store fault of this label
 	injected   map[types.TransactionID]bool // transactions the renter itself put into the pool during the running step
 	fresh      []proto4.Account             // accounts allocated for the running overflow step
@@ -272,7 +274,7 @@ func (c *c08) sabotage(bad string, call *rhplab.RenewCall) error {
 		}
 		call.Funding = &rhplab.Funding{Basis: tip, Inputs: []types.SiacoinElement{el}}
 		call.BeforeRound2 = func() {
-			if err := inject(spend(el, types.VoidAddress, 1)); err != nil {
+			if err := inject(spend(el, w.Address(), 3)); err != nil {
 				c.r.Inconclusive(err.Error())
 				return
 			}
@@ -288,7 +290,7 @@ func (c *c08) sabotage(bad string, call *rhplab.RenewCall) error {
 			return err
 		}
 		parent := spend(el, w.Address(), 1)
-		if err := inject(spend(el, types.VoidAddress, 2)); err != nil {
+		if err := inject(spend(el, w.Address(), 2)); err != nil {
 			return err
 		}
 		call.Funding = &rhplab.Funding{Basis: tip, Inputs: []types.SiacoinElement{parent.EphemeralSiacoinOutput(0)}, Parents: []types.V2Transaction{parent}}
@@ -796,6 +798,9 @@ func (c *c08) do(st c08Step) (res c08Result) {
 		done(r.Stage, r.Err)
 		if isInc(r.Err) {
 			res.harness = r.Err
+		} else if r.Err != nil && r.Stage == rhplab.StageDial && strings.HasPrefix(r.Err.Error(), "renter cannot") {
+			// the renter's own wallet could not fund the request: nothing was sent
+			res.harness = inconclusive("%v", r.Err)
 		}
 	default:
 		res.err = fmt.Errorf("unknown rpc %q", st.RPC)
@@ -828,9 +833,27 @@ func (c *c08) pseudo(st c08Step) (bool, error) {
 			if err != nil {
 				return true, inconclusive("RPCSettings: %v", err)
 			}
-			c.prices = p
+			c.prices, c.stale = p, ""
 		}
 		c.r.Count("blocks_mined_in_scenarios", int(st.Length))
+		return true, nil
+	case "set-prices":
+		// the host changes its settings; the signed table in use stays valid
+		if len(st.Batch) != 1 {
+			return true, inconclusive("set-prices needs a factor")
+		}
+		if err := c.lab.SetPriceFactor(st.Batch[0]); err != nil {
+			return true, inconclusive("%v", err)
+		}
+		c.stale = st.Batch[0]
+		c.r.Count("settings_changes", 1)
+		if st.Fresh {
+			p, err := c.lab.HostPrices(c.cl)
+			if err != nil {
+				return true, inconclusive("RPCSettings: %v", err)
+			}
+			c.prices, c.stale = p, ""
+		}
 		return true, nil
 	case "form":
 		return true, c.newContractFor(st.Length)
@@ -996,12 +1019,18 @@ func (c *c08) step(st c08Step) error {
 		switch {
 		case !res.success && c.afterFault != "":
 			c.report("rpc-after-store-fault-failed:"+c.afterFault, "after an RPC whose persisting call failed, an ordinary RPC on the same contract no longer succeeds from the stored revision: "+errText(res.err), nil, map[string]any{"stored": pre.State.Revision})
+		case !res.success && c.stale != "":
+			c.report("rpc-refused-under-valid-signed-prices:"+st.RPC, "after the host changed its settings (prices "+c.stale+") a well-formed RPC priced by the still valid host-signed table fails: "+errText(res.err), nil, nil)
 		case !res.success:
 			c.r.Count("unexpected_failures", 1)
 			c.r.Inconclusive(fmt.Sprintf("well-formed %s failed: %v (step %+v)", st.RPC, res.err, st))
 		case c.afterFault != "":
 			c.r.Count("rpcs_succeeded_after_store_fault", 1)
 		}
+	}
+	if st.Bad == "" && res.success && c.stale != "" && okCommitsOf(commits) > 0 {
+		c.r.Count("commits_priced_by_older_signed_table", 1)
+		c.r.Distinct("stale-table:" + st.RPC + ":" + c.stale)
 	}
 	c.afterFault = ""
 	// after every commit: host state is the committed revision, and consensus accepts it
@@ -1081,6 +1110,15 @@ func (c *c08) step(st c08Step) error {
 	c.lab.Mux.Forget(c.lab.Mux.Streams())
 	c.lab.Log.Trim(c.aud.seq)
 	return nil
+}
+
+func okCommitsOf(commits []rhplab.Event) (n int) {
+	for _, ev := range commits {
+		if ev.Err == "" {
+			n++
+		}
+	}
+	return
 }
 
 var persistingKinds = []string{rhplab.EvRevise, rhplab.EvCreditAccounts, rhplab.EvCreditPools, rhplab.EvAddContract, rhplab.EvRenewContract}
@@ -1336,6 +1374,14 @@ func (c *c08) runSequential(nsteps int, table bool) error {
 	}
 	// (2) PRNG sequences
 	for i := 0; i < nsteps; i++ {
+		if i%17 == 5 {
+			f := []string{"x0.5", "x2", "zero", "x1000", "x1"}[c.rng.IntN(5)]
+			// now and then the renter also fetches a table with the new prices
+			fresh := c.rng.IntN(4) == 0 && f != "x1000"
+			if err := c.step(c08Step{RPC: "set-prices", Batch: []string{f}, Fresh: fresh}); err != nil {
+				return err
+			}
+		}
 		var st c08Step
 		switch {
 		case i%40 == 39:
@@ -1506,6 +1552,8 @@ func runC08(r *mon.Run, replay string) {
 	r.Floor("formations_confirmed", 2)
 	r.Floor("contender_rounds", 12)
 	r.Floor("store_faults_injected", 40)
+	r.Floor("settings_changes", 60)
+	r.Floor("commits_priced_by_older_signed_table", 150)
 	r.Floor("store_faults_changed_nothing", 40)
 	r.Floor("rpcs_succeeded_after_store_fault", 30)
 	workers := r.Pick(8, 16)
